@@ -27,10 +27,12 @@ def gen_tamper(rng, chain, recs):
         return ("link", rng.randrange(n), rng.choice(["edit", "remove"]))
     b = rng.choice(boundaries)
     files = covered_files(recs[b - 1])
-    kind = rng.choice(["edit", "add", "delete", "rename", "rewrite_same", "uncovered"])
-    if kind in ("edit", "delete", "rename", "rewrite_same") and not files:
+    kind = rng.choice(["edit", "add", "delete", "rename", "rewrite_same", "uncovered", "delete_all"])
+    if kind in ("edit", "delete", "rename", "rewrite_same", "delete_all") and not files:
         kind = "add"
-    if kind == "edit":
+    if kind == "delete_all":
+        ops = [["delete", f] for f in files]           # nothing covered is left: only REQUIRE can notice
+    elif kind == "edit":
         ops = [["modify", rng.choice(files), "tampered"]]
     elif kind == "add":
         ops = [["create", rng.choice(["evil.sh", "src/backdoor.c", "out/extra", "é2"]), "x"]]
